@@ -37,6 +37,7 @@ pub struct ZarrAsyncTraceStorage {
     draw_types: Vec<(String, ItemType)>,
     event_dim_of_stat: HashMap<String, String>,
     rt_handle: tokio::runtime::Handle,
+    store_warmup: bool,
 }
 
 /// Per-chain storage for async Zarr MCMC traces
@@ -51,6 +52,7 @@ pub struct ZarrAsyncChainStorage {
     pending_writes: Arc<tokio::sync::Mutex<JoinSet<Result<()>>>>,
     rt_handle: tokio::runtime::Handle,
     max_queued_writes: usize,
+    store_warmup: bool,
 }
 
 /// Write a chunk of data to a Zarr array asynchronously
@@ -276,6 +278,7 @@ impl ZarrAsyncChainStorage {
         chain: u64,
         rt_handle: tokio::runtime::Handle,
         event_dim_of_stat: HashMap<String, String>,
+        store_warmup: bool,
     ) -> Self {
         let draw_buffers: HashMap<String, SampleBuffer> = draw_types
             .iter()
@@ -302,6 +305,7 @@ impl ZarrAsyncChainStorage {
             // that we queue one write per draw.
             max_queued_writes: num_arrays.max(1),
             rt_handle,
+            store_warmup,
         }
     }
 
@@ -446,6 +450,9 @@ impl ChainStorage for ZarrAsyncChainStorage {
         draws: Vec<(&str, Option<Value>)>,
         info: &Progress,
     ) -> Result<()> {
+        if info.tuning && !self.store_warmup {
+            return Ok(());
+        }
         let is_first_draw = self.last_sample_was_warmup && !info.tuning;
         if is_first_draw {
             self.warmup_event_counts = self.event_counts();
@@ -701,6 +708,7 @@ impl StorageConfig for ZarrAsyncConfig {
             }
             let store = self.store;
             let draw_chunk_size = self.draw_chunk_size;
+            let store_warmup = self.store_warmup;
 
             let mut root = GroupBuilder::new().build(store.clone(), &group_path)?;
 
@@ -862,6 +870,7 @@ impl StorageConfig for ZarrAsyncConfig {
                 draw_chunk_size,
                 event_dim_of_stat,
                 rt_handle,
+                store_warmup,
             })
         })
     }
@@ -881,6 +890,7 @@ impl TraceStorage for ZarrAsyncTraceStorage {
             chain_id as _,
             self.rt_handle.clone(),
             self.event_dim_of_stat.clone(),
+            self.store_warmup,
         ))
     }
 
